@@ -226,3 +226,139 @@ func runKQ(c *Ctx, s *Sink) {
 		s.Pass(nil, key, fd.Pos(), fmt.Sprintf("%d store(s): increments by one, the query excluded", nstore))
 	}
 }
+
+func init() {
+	register(&Rule{
+		ID: "KQ-2", Props: []string{"C19"}, Min: 1,
+		Doc: `the bound on the occurrences of a k-mer means the same thing where the index is filled and where it is purged: in pkg/obikmer, Push admits a further occurrence while len(list) OP1 bound
+and NewKmerMap deletes the k-mers with len(list) OP2 bound; a k-mer at exactly the bound must not be both admitted and deleted: with '<=' in Push the purge must be '>' (not '>='), with '<'
+it must be '>='. With <= and >= , --max-kmers M removed the k-mers occurring exactly M times (--max-kmers 1 emptied the index).`,
+		Run: func(c *Ctx, s *Sink) {
+			key := "pkg/obikmer:max-occurrences-admit-vs-purge"
+			var admit, purge token.Token
+			var at token.Pos
+			c.EachFunc([]string{"pkg/obikmer"}, func(p *packages.Package, fd *ast.FuncDecl) {
+				info := p.TypesInfo
+				ast.Inspect(fd.Body, func(n ast.Node) bool {
+					ifs, ok := n.(*ast.IfStmt)
+					if !ok {
+						return true
+					}
+					var cmp *ast.BinaryExpr
+					ast.Inspect(ifs.Cond, func(m ast.Node) bool {
+						if b, ok := m.(*ast.BinaryExpr); ok {
+							switch b.Op {
+							case token.LSS, token.LEQ, token.GTR, token.GEQ:
+								if call, ok := ast.Unparen(b.X).(*ast.CallExpr); ok {
+									if id, ok := call.Fun.(*ast.Ident); ok && id.Name == "len" {
+										if o := rootObj(info, b.Y); o != nil && strings.Contains(strings.ToLower(o.Name()), "maxocc") {
+											cmp = b
+										}
+									}
+								}
+							}
+						}
+						return true
+					})
+					if cmp == nil {
+						return true
+					}
+					appends, deletes := false, false
+					ast.Inspect(ifs.Body, func(m ast.Node) bool {
+						if call, ok := m.(*ast.CallExpr); ok {
+							if id, ok := call.Fun.(*ast.Ident); ok {
+								switch id.Name {
+								case "append":
+									appends = true
+								case "delete":
+									deletes = true
+								}
+							}
+						}
+						return true
+					})
+					if appends {
+						admit = cmp.Op
+					}
+					if deletes {
+						purge, at = cmp.Op, cmp.Pos()
+					}
+					return true
+				})
+			})
+			switch {
+			case admit == token.ILLEGAL || purge == token.ILLEGAL:
+				s.Pass(nil, key, 0, "no pair of admission / purge tests on the number of occurrences")
+			case (admit == token.LEQ && purge == token.GTR) || (admit == token.LSS && purge == token.GEQ):
+				s.Pass(nil, key, at, "the purge removes exactly the k-mers that went beyond the bound")
+			default:
+				s.Fail(nil, key, at, fmt.Sprintf("a k-mer occurring exactly 'bound' times is admitted by Push (len %s bound) and deleted by the purge (len %s bound): --max-kmers M drops the k-mers present M times, --max-kmers 1 empties the index", admit, purge))
+			}
+		},
+	})
+	register(&Rule{
+		ID: "UC", Props: []string{"C19", "C20"}, Min: 1,
+		Doc: `an option value is not turned into an unsigned number before it is known not to be negative: in pkg/obitools, a conversion uint(v) / uint64(v) of a package-level integer variable (the
+variables the options are bound to) lies in a function that ends the program when v is below a non-negative constant. CLIKmerSize() returned uint(_KmerSize) unchecked: --kmer-size=-2 became
+2^64−2 and the k-mer index died on an arithmetic panic or on makeslice.`,
+		Run: func(c *Ctx, s *Sink) {
+			c.EachFunc([]string{"pkg/obitools"}, func(p *packages.Package, fd *ast.FuncDecl) {
+				info := p.TypesInfo
+				n := 0
+				ast.Inspect(fd.Body, func(nd ast.Node) bool {
+					call, ok := nd.(*ast.CallExpr)
+					if !ok || len(call.Args) != 1 {
+						return true
+					}
+					tv, ok := info.Types[call.Fun]
+					if !ok || !tv.IsType() {
+						return true
+					}
+					if b, ok := tv.Type.Underlying().(*types.Basic); !ok || b.Info()&types.IsUnsigned == 0 {
+						return true
+					}
+					id, ok := ast.Unparen(call.Args[0]).(*ast.Ident)
+					if !ok {
+						return true
+					}
+					v, ok := info.ObjectOf(id).(*types.Var)
+					if !ok || v.Parent() != v.Pkg().Scope() {
+						return true
+					}
+					if b, ok := v.Type().Underlying().(*types.Basic); !ok || b.Info()&types.IsInteger == 0 || b.Info()&types.IsUnsigned != 0 {
+						return true
+					}
+					n++
+					key := fmt.Sprintf("%s:uint(%s)#%d:not-negative", funcName(p, fd), v.Name(), n)
+					guarded := false
+					ast.Inspect(fd.Body, func(m ast.Node) bool {
+						ifs, ok := m.(*ast.IfStmt)
+						if !ok || ifs.Pos() > call.Pos() {
+							return true
+						}
+						b, ok := ast.Unparen(ifs.Cond).(*ast.BinaryExpr)
+						if !ok || (b.Op != token.LSS && b.Op != token.LEQ) || rootObj(info, b.X) != v {
+							return true
+						}
+						if k, isC := constInt(info, b.Y); !isC || k < 0 {
+							return true
+						}
+						ast.Inspect(ifs.Body, func(q ast.Node) bool {
+							if c2, ok := q.(*ast.CallExpr); ok && linEndsProgram(info, c2) {
+								guarded = true
+							}
+							return true
+						})
+						return true
+					})
+					if guarded {
+						s.Pass(nil, key, call.Pos(), "a negative value ends the program before the conversion")
+					} else {
+						s.Fail(nil, key, call.Pos(), "the option variable "+v.Name()+" is converted to an unsigned number unchecked: a negative value becomes a huge one — --kmer-size=-2 ends on 'Uint128 underflow at Sub' and a goroutine dump, --kmer-size=-9223372036854775792 on makeslice")
+					}
+					return true
+				})
+			})
+		},
+	})
+}
